@@ -1538,8 +1538,18 @@ class Function(Criterion):
         quote_char = kwargs.pop("quote_char", None)
         dialect = kwargs.pop("dialect", None)
 
+        # the alias / literal conventions of the enclosing statement also govern the arguments (a sub-query or a literal
+        # inside a function call must not fall back to its own class's or to the default conventions)
+        forwarded = {
+            key: kwargs[key]
+            for key in ("secondary_quote_char", "alias_quote_char", "as_keyword", "groupby_alias")
+            if key in kwargs
+        }
+
         # FIXME escape
-        function_sql = self.get_function_sql(with_namespace=with_namespace, quote_char=quote_char, dialect=dialect)
+        function_sql = self.get_function_sql(
+            with_namespace=with_namespace, quote_char=quote_char, dialect=dialect, **forwarded
+        )
 
         if self.schema is not None:
             function_sql = "{schema}.{function}".format(
